@@ -404,6 +404,27 @@ fn m_c06_fees(shard: &mut Shard, obs: &Obs, commit: &CommitResult, _touched: &[T
         }
     }
     let cp = &obs.receipt.costing_parameters;
+    // independent recomputation of the cost components from units, prices and the tip proportion
+    // (Decimal = 18-decimal fixed point: price x integer units is exact; the tip is the specified
+    // proportion of execution + finalization cost, truncated; 2 attos of rounding slack)
+    {
+        let one = BigInt::from(10u8).pow(18);
+        let exec = b(cp.execution_cost_unit_price) * BigInt::from(fs.total_execution_cost_units_consumed);
+        let fin = b(cp.finalization_cost_unit_price) * BigInt::from(fs.total_finalization_cost_units_consumed);
+        if exec != b(fs.total_execution_cost_in_xrd) {
+            shard.violation_for("C06", "execution-cost-differs-from-units-times-price", d("total_execution_cost_in_xrd != execution_cost_unit_price x units"));
+        }
+        if fin != b(fs.total_finalization_cost_in_xrd) {
+            shard.violation_for("C06", "finalization-cost-differs-from-units-times-price", d("total_finalization_cost_in_xrd != finalization_cost_unit_price x units"));
+        }
+        let p = b(obs.receipt.transaction_costing_parameters.tip_proportion);
+        let tip_expected = ((&exec + &fin) * &p) / &one;
+        let diff = b(fs.total_tipping_cost_in_xrd) - &tip_expected;
+        if diff > BigInt::from(2) || diff < BigInt::from(-2) {
+            shard.violation_for("C06", "tipping-cost-differs-from-tip-proportion-of-execution-and-finalization-cost", d("total_tipping_cost_in_xrd != tip_proportion x (execution + finalization cost)"));
+        }
+        shard.count("c06:cost_components_recomputed");
+    }
     if fs.total_execution_cost_units_consumed > cp.execution_cost_unit_limit {
         shard.violation_for("C06", "execution-cost-units-exceed-limit", d("execution cost units > limit"));
     }
